@@ -21,7 +21,7 @@ POOL = [
     "y ~ x", "y ~ f", "y ~ 0 + f:g + x", "y ~ f*g + poly(x, 2)", "yc ~ x", "yc[v] ~ f + x", "prop(s, n) ~ x + f", "prop(s, 9) ~ x",
     "y ~ 1", "x + f", "y ~ x + (1|g)", "y ~ (x|g)", "y ~ (f|g)", "y ~ (0 + f|g) + (1|h)", "y ~ (x|g:h) + (0 + f:x|h)",
     "y ~ (x|g) + (x|h)", "y ~ x + (bs(x, df=3)|g)", "y ~ f + (f|g) + (x|h)", "y ~ 0 + C(k) + (1|g/h)", "y ~ (1|h) + (f*x|g)",
-    "yc ~ 0 + x + (0 + x|g)", "(x|g)",
+    "yc ~ 0 + x + (0 + x|g)", "(x|g)", "y ~ one + x + f", "y ~ x + one + (1|g) + (0 + x|g)",  # 'one' has a single level: a term without columns
 ]
 FRAMES = ["sub", "rev", "newg", "newh", "newgh"]
 FRAMES_T = FRAMES + ["one", "dup"]
@@ -36,6 +36,7 @@ def train():
         df["yc"] = [["v", "u", "w"][i % 3] for i in range(n)]
         df["n"] = 9
         df["s"] = [i % 7 for i in range(n)]
+        df["one"] = "only"
         _DF = df
     return _DF
 
@@ -52,6 +53,7 @@ def other_frame():
         df["yc"] = [["v", "u", "w", "t"][i % 4] for i in range(n)]
         df["n"] = 12
         df["s"] = [i % 5 for i in range(n)]
+        df["one"] = "only"
         _OTHER = df
     return _OTHER
 
@@ -103,7 +105,7 @@ def slices_ok(M, what, problems):
     start = 0
     for nme in names:
         s = M.slices[nme]
-        if s.start != start or s.stop <= s.start or s.step not in (None, 1):
+        if s.start != start or s.stop < s.start or s.step not in (None, 1):
             problems.append(("slices", f"{what}: slice of {nme!r} is {s}, expected to start at {start}"))
             return
         start = s.stop
